@@ -29,14 +29,18 @@ PInfo == [a |-> [ty |-> "float", lo |-> 0, hi |-> 200, write |-> TRUE,  needscfg
           l |-> [ty |-> "tuple", lo |-> 0, hi |-> 6,   write |-> FALSE, needscfg |-> FALSE],
           k |-> [ty |-> "bytes", lo |-> 0, hi |-> 8,   write |-> FALSE, needscfg |-> FALSE]]
 LimTy(p) == IF PInfo[p].ty \in {"float", "int"} THEN PInfo[p].ty ELSE "int"     \* type of the limits of p
-ModProps == {"mp", "op"}
+ModProps == {"mp", "op", "export"}         \* export = FALSE: the module and all its parameters are hidden
 MInfo == [mp |-> [ty |-> "int",   lo |-> 0, hi |-> 10, mandatory |-> TRUE],
-          op |-> [ty |-> "float", lo |-> 0, hi |-> 20, mandatory |-> FALSE]]
+          op |-> [ty |-> "float", lo |-> 0, hi |-> 20, mandatory |-> FALSE],
+          export |-> [ty |-> "bool", lo |-> 0, hi |-> 1, mandatory |-> FALSE]]
+MainPar == "value"                         \* the main value: its (configurable) unit is the module's main unit,
+ClassMainUnit == 2                         \* ('K')  which replaces '$' in the units of the other parameters
+DollarParams == {"n"}                      \* parameters declared with unit '$'
 Commands == {"c"}
 LimitPairs == {"a_limits"}                 \* a Limit() parameter: value is a pair (low, high)
 LimBase == [a_limits |-> "a"]              \* ... limiting this parameter
 DtProps(ty) == IF ty = "float" THEN {"min", "max", "unit"} ELSE {"min", "max"}   \* datatype properties
-ParProps == {"value", "visibility", "readonly", "export"}                        \* parameter properties
+ParProps == {"value", "default", "constant", "visibility", "readonly", "export", "group"}     \* parameter properties
 
 (* an entry : [par, prop, form, v]  with v = [ty \in {"int","float","str","bool","pair"}, n, m]      *)
 (* form "B" = bare value (Mod(..., a=5)), "P" = Param(...).  A configuration is a set of entries     *)
@@ -47,6 +51,7 @@ ConvOK(ty, v) == CASE ty = "float" -> IsNum(v)
                    [] ty = "str" -> v.ty = "str"
                    [] ty = "tuple" -> v.ty = "list"          \* an array is stored as a tuple
                    [] ty = "bytes" -> v.ty = "bytes"
+                   [] ty = "bool" -> v.ty = "bool"
 Conv(ty, v) == [ty |-> ty, n |-> v.n]            \* the configured value converted to the datatype
 
 Has(cfg, par, prop) == \E e \in cfg : e.par = par /\ e.prop = prop
@@ -70,12 +75,18 @@ EntryClass(cfg, e) ==
      LET info == PInfo[e.par] IN
      CASE e.prop = "value" -> IF ~ConvOK(info.ty, e.v) THEN "wrongtype"
                               ELSE RangeClass(ValLo(cfg, e.par), ValHi(cfg, e.par), e.v.n)
+       \* default: start value that is not written to the hardware; constant: fixed value, makes the parameter readonly
+       [] e.prop \in {"default", "constant"} -> IF ~ConvOK(info.ty, e.v) THEN "wrongtype"
+                                                ELSE RangeClass(EffLo(cfg, e.par), EffHi(cfg, e.par), e.v.n)
+       [] e.prop = "group" -> IF e.v.ty = "str" THEN "inside" ELSE "wrongtype"
        [] e.prop \in {"min", "max"} -> IF ~ConvOK(LimTy(e.par), e.v) THEN "wrongtype"
                                        ELSE IF EffLo(cfg, e.par) > EffHi(cfg, e.par) THEN "inverted" ELSE "inside"
        [] e.prop = "unit" /\ "unit" \in DtProps(info.ty) -> IF e.v.ty = "str" THEN "inside" ELSE "wrongtype"
        [] e.prop = "visibility" -> IF e.v.ty = "str" /\ e.v.n \in 1 .. 3 THEN "inside" ELSE "wrongtype"
        [] e.prop \in {"readonly", "export"} -> IF e.v.ty = "bool" THEN "inside" ELSE "wrongtype"
        [] OTHER -> "unknownprop"
+  ELSE IF e.par = MainPar THEN      \* (only the unit of the main value is in the alphabet)
+     IF e.prop = "unit" THEN (IF e.v.ty = "str" THEN "inside" ELSE "wrongtype") ELSE "unknownprop"
   ELSE IF e.par \in ModProps THEN
      IF e.prop # "value" THEN "unknownprop"
      ELSE IF ~ConvOK(MInfo[e.par].ty, e.v) THEN "wrongtype"
@@ -104,6 +115,9 @@ Allowed(cfg) == IF Failing(cfg) # {} \/ Missing(cfg) # {} THEN {"rejected"}
                 ELSE {"accepted"}
 
 Valued(cfg) == {p \in Params : Has(cfg, p, "value")}
+Defaulted(cfg) == {p \in Params : Has(cfg, p, "default") /\ ~Has(cfg, p, "value")}
+MainUnit(cfg) == IF Has(cfg, MainPar, "unit") THEN Get(cfg, MainPar, "unit").n ELSE ClassMainUnit
+ModExported(cfg) == IF Has(cfg, "export", "value") THEN Get(cfg, "export", "value").n = 1 ELSE TRUE
 WriteSet(cfg) == {p \in Valued(cfg) : PInfo[p].write}
 Flag(cfg, p, prop, dflt) == IF Has(cfg, p, prop) THEN Get(cfg, p, prop).n = 1 ELSE dflt
 ProbePoints(lo, hi) == <<[n |-> lo - 2, ok |-> FALSE], [n |-> lo, ok |-> TRUE],
@@ -119,13 +133,17 @@ WhyRejected(cfg) ==
 
 (* what an ACCEPTED module must show (only what the property demands) *)
 Exp(cfg) ==
-  [start    |-> [p \in Valued(cfg) |-> Conv(PInfo[p].ty, Get(cfg, p, "value"))],
+  [start    |-> [p \in Valued(cfg) \cup Defaulted(cfg) |->
+                   Conv(PInfo[p].ty, Get(cfg, p, IF p \in Valued(cfg) THEN "value" ELSE "default"))],
    lo       |-> [p \in Params |-> EffLo(cfg, p)],
    hi       |-> [p \in Params |-> EffHi(cfg, p)],
-   unit     |-> [p \in {q \in Params : Has(cfg, q, "unit")} |-> Get(cfg, p, "unit").n],
+   unit     |-> [p \in {q \in Params : Has(cfg, q, "unit")} \cup DollarParams |->
+                   IF Has(cfg, p, "unit") THEN Get(cfg, p, "unit").n ELSE MainUnit(cfg)],
+   group    |-> [p \in {q \in Params : Has(cfg, q, "group")} |-> Get(cfg, p, "group").n],
+   constant |-> [p \in {q \in Params : Has(cfg, q, "constant")} |-> Conv(PInfo[p].ty, Get(cfg, p, "constant"))],
    vis      |-> [p \in {q \in Params : Has(cfg, q, "visibility")} |-> Get(cfg, p, "visibility").n],
-   readonly |-> [p \in Params |-> Flag(cfg, p, "readonly", FALSE)],
-   exported |-> [p \in Params |-> Flag(cfg, p, "export", TRUE)],
+   readonly |-> [p \in Params |-> Flag(cfg, p, "readonly", FALSE) \/ Has(cfg, p, "constant")],
+   exported |-> [p \in Params |-> Flag(cfg, p, "export", TRUE) /\ ModExported(cfg)],
    probes   |-> [p \in Params |-> ProbePoints(EffLo(cfg, p), EffHi(cfg, p))],
    writes   |-> [p \in WriteSet(cfg) |-> Conv(PInfo[p].ty, Get(cfg, p, "value"))],
    mprops   |-> [q \in {r \in ModProps : Has(cfg, r, "value")} |-> Conv(MInfo[q].ty, Get(cfg, q, "value"))]]
@@ -138,6 +156,8 @@ StateViol(cfg, st) ==
   ELSE IF \E p \in Params : st.lo[p] # x.lo[p] \/ st.hi[p] # x.hi[p] THEN "described limits"
   ELSE IF \E p \in DOMAIN x.unit : st.unit[p] # x.unit[p] THEN "described unit"
   ELSE IF \E p \in DOMAIN x.vis : st.vis[p] # x.vis[p] THEN "visibility"
+  ELSE IF \E p \in DOMAIN x.group : st.group[p] # x.group[p] THEN "parameter group"
+  ELSE IF \E p \in DOMAIN x.constant : st.constant[p] # x.constant[p] THEN "described constant"
   ELSE IF \E p \in Params : st.readonly[p] # x.readonly[p] \/ st.exported[p] # x.exported[p] THEN "readonly/export"
   ELSE IF \E p \in Params : \E j \in DOMAIN st.probes[p] :
             st.probes[p][j].ok # (x.lo[p] <= st.probes[p][j].n /\ st.probes[p][j].n <= x.hi[p]) THEN "range check uses the configured limits"
@@ -152,4 +172,11 @@ AllNames(files) == UNION {NamesIn(files[k]) : k \in 1 .. Len(files)}
 FirstFile(files, m) == CHOOSE k \in 1 .. Len(files) : m \in NamesIn(files[k]) /\ \A k2 \in 1 .. k - 1 : m \notin NamesIn(files[k2])
 CfgIn(f, m) == LET j == CHOOSE j \in 1 .. Len(f) : f[j].m = m /\ \A j2 \in 1 .. j - 1 : f[j2].m # m IN f[j].cfg
 Merge(files) == [m \in AllNames(files) |-> CfgIn(files[FirstFile(files, m)], m)]
+(* how a module gets its hardware served: "polled" (own poll thread), "unpolled" (enablePoll = False:  *)
+(* a thread only for the configured writes), "onio" (unpolled, served by the poll thread of its io     *)
+(* module), "pio" (polled by the thread of its io module)                                             *)
+Kinds == {"polled", "unpolled", "onio", "pio"}
+PolledKinds == {"polled", "pio"}
+KindIn(f, m) == LET j == CHOOSE j \in 1 .. Len(f) : f[j].m = m /\ \A j2 \in 1 .. j - 1 : f[j2].m # m IN f[j].kind
+KindMerge(files) == [m \in AllNames(files) |-> KindIn(files[FirstFile(files, m)], m)]
 =============================================================================
